@@ -438,8 +438,15 @@ def equal_content(a, b):
         return ufmaps.equal_content(a, b)
     x = z3.Const('k!frame', key_sort(a.kname))
     if isinstance(a, SymMap):
+        va, vb = a.value(x), b.value(x)
+        if isinstance(va, SymSet) and isinstance(vb, SymSet):
+            # c07y: set-valued map (dict[Key, set[Key]]): the rows are equal as sets (extensionally)
+            y = z3.Const('u!frame', key_sort(va.kname))
+            veq = z3.ForAll([y], _b(va.member(y)) == _b(vb.member(y)))
+        else:
+            veq = va == vb
         body = z3.And(_b(a.present(x)) == _b(b.present(x)),
-                      z3.Implies(_b(a.present(x)), a.value(x) == b.value(x)))
+                      z3.Implies(_b(a.present(x)), veq))
     elif isinstance(a, SymSet):
         body = _b(a.member(x)) == _b(b.member(x))
     else:
